@@ -118,6 +118,25 @@ def _rule_r18(text, log):
     return ''.join(out)
 
 
+def _rule_r27(text, log):
+    """`panic!(..)` -> `runtime_panic()` (the unit supplies `fn runtime_panic<A>() -> A requires false`): reaching the
+    panic becomes a proof obligation of the function (its precondition must exclude it); the message is not modelled."""
+    m = rs.mask(text)
+    out, last, n = [], 0, 0
+    for mm in re.finditer(r'\bpanic!\s*\(', m):
+        if mm.start() < last:
+            continue
+        close = rs.match_brace(m, mm.end() - 1)
+        out.append(text[last:mm.start()])
+        out.append('runtime_panic()')
+        last = close + 1
+        n += 1
+    out.append(text[last:])
+    if n:
+        log.append(('R27', n))
+    return ''.join(out)
+
+
 def _rule_r20(text, log):
     """`let mut IT = E.windows(2); while let Some([A, B]) = IT.next() {`  ->  index loop over adjacent pairs:
     `let mut __w: usize = 0; while __w + 1 < E.len() { let A = &E[__w]; let B = &E[__w + 1]; __w += 1;`
@@ -939,6 +958,8 @@ def apply_rewrites(text, log, rules, keep_eq=False):
         text = _rule_d2(text, log)
     if 'R18' in rules:
         text = _rule_r18(text, log)
+    if 'R27' in rules:
+        text = _rule_r27(text, log)
     if 'R24' in rules:
         text = _rule_r24(text, log)
     if 'R26' in rules:
